@@ -24,7 +24,7 @@ const (
 
 func (k Kind) String() string {
 	if k < 0 || k >= NumKinds {
-		return [...]string{"Key", "Bytes"}[(-int(k)+1)%2]
+		return [...]string{"Bytes", "Key"}[(-int(k)-1)%2]
 	}
 	return [...]string{"Sign1", "Sign1Untagged", "Sign", "Signature", "Countersignature", "ProtectedHeader", "UnprotectedHeader"}[k]
 }
